@@ -458,4 +458,12 @@ pub mod verif_hooks {
     pub fn operand_types_valid(operation: &Operation<LocalField, Argument>) -> bool {
         super::operand_types_valid(operation, None).is_ok()
     }
+
+    /// Same, for a filter whose argument is the tag with the given name.
+    pub fn operand_types_valid_with_tag(
+        operation: &Operation<LocalField, Argument>,
+        tag_name: &str,
+    ) -> bool {
+        super::operand_types_valid(operation, Some(tag_name)).is_ok()
+    }
 }
